@@ -53,7 +53,7 @@ class WrapScenario(object):
             if off == self.off_buffer: return Ptr('buf:' + name, 0)
             if off == self.off_nrows: return m.nrows
             if off == self.off_ncols: return m.ncols
-            if off == self.off_id: return m.id
+            if off == self.off_id: return m.id if self.id_fixed is None else self.id_fixed
             return None
         if ('zero', region) in st.mem:
             return NULL if ty.kind in ('ptr', 'func') else (z3.RealVal(0) if ty.kind in ('double', 'float') else 0)
